@@ -123,12 +123,15 @@ class LoadFamily:
                     else:
                         cls.add(f"messages:{k[0]}:{k[4]}:{'missing' if base[0][k] > pj[0][k] else 'extra'}")
                 if pj[1] != base[1]:
-                    cls.add('events')
-                for k in list((base[2] - pj[2]).keys()) + list((pj[2] - base[2]).keys()):
-                    cls.add('generated-node-tasks' if k[0] == '~' else f"final-task:{k[1]}:{k[2]}")
+                    # the process did not end like its solo run: everything else follows from that
+                    cls = {'terminal-event-differs'}
+                if 'terminal-event-differs' not in cls:
+                    for k in list((base[2] - pj[2]).keys()) + list((pj[2] - base[2]).keys()):
+                        cls.add('generated-node-tasks' if k[0] == '~' else f"final-task:{k[1]}:{k[2]}")
                 miss = list((base[0] - pj[0]).items())[:3]
                 extra = list((pj[0] - base[0]).items())[:3]
-                cfg = ('cache-smaller-than-load' if evicted else 'all-cached')
+                reloaded = any(e['pid'] == pid and e['via'] == 'load' for e in L.states)
+                cfg = ('cache-smaller-than-load' if evicted else 'all-cached') + (':reloaded-while-active' if reloaded else '')
                 out.append(V('C13', 'differs-from-solo-run', f"{'|'.join(sorted(cls))[:120]}:{cfg}:{L.race_tag(pid)}", f"{pid} (model {it['mid']}, a={it['vars']['a']} b={it['vars']['b']}) under load N={m['N']} cap={m['cap']} workers={m['workers']} {m['mode']}: missing {miss} extra {extra}; events {sorted(pj[1])} vs solo {sorted(base[1])}", scenario=sc['id']))
             # no value of another process
             for e in L.cbs:
